@@ -423,6 +423,20 @@ def rule4_edges(ctx, m, a, s):
                    loc=st.loc, detail=expr_str(ce, st.ops[0]))
     ctx.ob('C18.4', 'dr_calc_edges accumulates from contracted nodes and explicit edges', n_acc >= 3, 'three accumulation sites', loc=ce.loc)
     if len(arr) == 1:
+        rngt = [ic for ic in ce.order if ic.op == 'icmp' and ic.pred in ('eq', 'ne') and
+                sorted(ce.field(x) if (x is not None and x.op == 'load') else '' for x in (ce.get(ce.strip(o)) for o in ic.ops)) ==
+                ['dr_pi_dag_node.subgraphs_begin_offset', 'dr_pi_dag_node.subgraphs_end_offset']]
+        for st in ce.order:
+            if st.op != 'store' or ce.strip(ce.ap(st.ops[1]).root) != arr[0].id or const_int(st.ops[0]) == 0:
+                continue
+            av = lib.affine(ce, st.ops[0])
+            if not [k for k in av if k in ce.insts and ce.insts[k].op == 'load' and ce.field(ce.insts[k]) == INFO + 'logical_edge_counts']:
+                continue
+            ctx.ob('C18.4', 'dr_calc_edges takes the logical counts of exactly the nodes whose subgraph range is empty',
+                   any(ce.on_edge(c_, (ic.pred == 'eq') == p_, st) for ic in rngt for c_, p_ in lib.cond_chain(ce, ic.id)),
+                   'a contracted section / task is one whose range [begin, end) is empty - the test the work total uses and the only '
+                   'mark every contraction (at record time and by the shrinking conversion) maintains', loc=st.loc)
+    if len(arr) == 1:
         accs = [st for st in ce.order if st.op == 'store' and ce.strip(ce.ap(st.ops[1]).root) == arr[0].id and const_int(st.ops[0]) != 0]
         raw = [l for l in ce.order if l.op == 'load' and ce.field(l) == INFO + 'worker']
         ctx.ob('C18.4', 'dr_calc_edges reads the worker of contracted nodes and of both edge ends', len(raw) >= 3,
@@ -814,6 +828,8 @@ def combine_op(f, ref):
 
 INL = 'src/profiler/dag_recorder_inl.h'
 MUTANTS = [
+    {'name': 'edge report recognises contracted nodes by cur_node_count (seed5 C18/m1)', 'expect': 'C18.4',
+     'edits': [('src/profiler/gen_stat.c', "    if (t->info.kind >= dr_dag_node_kind_section\n\t&& t->subgraphs_begin_offset == t->subgraphs_end_offset) {\n      for (k = 0; k < dr_dag_edge_kind_max; k++) {", "    if (t->info.kind >= dr_dag_node_kind_section\n\t&& t->info.cur_node_count == 1) {\n      for (k = 0; k < dr_dag_edge_kind_max; k++) {")]},
     {'name': 'edge counts zeroed before the kind-indexed node-count store (seed4 C18/m1)', 'expect': 'C18.3',
      'edits': [('src/profiler/dag_recorder_inl.h', "        s->info.t_ready[i] = 0;\n      }", "        s->info.t_ready[i] = 0;\n        s->info.logical_edge_counts[i] = 0;\n      }"),
                ('src/profiler/dag_recorder_inl.h', "      s->info.logical_node_counts[s->info.kind] = 1;\n      for (i = 0; i < dr_dag_edge_kind_max; i++) {\n        s->info.logical_edge_counts[i] = 0;\n      }", "      s->info.logical_node_counts[s->info.kind] = 1;")]},
